@@ -2,6 +2,7 @@ import Driver.PathsCommon
 import W2c2Verif.Model.WasiPath
 import Driver.PathsReaddir
 import Driver.PathsOps
+import Driver.PathsProc
 
 /-! `pathsdriver` — line-protocol driver of the C14/C15 models (one line in → one line out;
     the same request lines as tools/harness/wasi_paths.c). -/
@@ -63,6 +64,9 @@ def handle (line : String) : String :=
   | some r => r
   | none =>
   match opsCmd ws with
+  | some r => r
+  | none =>
+  match procCmd ws with
   | some r => r
   | none => "err unknown-command"
 
